@@ -445,6 +445,53 @@ type Outcome struct {
 	OKs   []uint64
 	Fails []uint64
 	Err   error
+	// Unordered: the acknowledgements come from one ModifyResponse, which the
+	// client receives as a whole: the order of its results is not an observable
+	// moment, so any order in which every acknowledged operation is resolvable at
+	// its turn is accepted (the rib API's oks slice, by contrast, is ordered).
+	Unordered bool
+}
+
+// orderOKs returns the acknowledged ids of an unordered outcome in an order
+// that satisfies the relation if one exists (the operation itself first, then
+// held operations as they become installable); ids that fit nowhere keep their
+// relative order at the end, where the ordered rules report them.
+func (m *RIB) orderOKs(ni string, op *spb.AFTOperation, oks []uint64) []uint64 {
+	c := m.Clone()
+	id := op.GetId()
+	var out, rest []uint64
+	used := false
+	for _, x := range oks {
+		if x == id && !used {
+			used = true
+			continue
+		}
+		rest = append(rest, x)
+	}
+	if used {
+		out = append(out, id)
+		delete(c.Held, id)
+		c.install(ni, op)
+	}
+	for len(rest) > 0 {
+		picked := -1
+		for i, x := range rest {
+			if h, ok := c.Held[x]; ok && c.Installable(h.NI, h.Op) {
+				picked = i
+				break
+			}
+		}
+		if picked < 0 {
+			break
+		}
+		x := rest[picked]
+		h := c.Held[x]
+		c.install(h.NI, h.Op)
+		delete(c.Held, x)
+		out = append(out, x)
+		rest = append(rest[:picked], rest[picked+1:]...)
+	}
+	return append(out, rest...)
 }
 
 func (o Outcome) String() string {
@@ -483,6 +530,9 @@ func (m *RIB) StepAdd(ni string, op *spb.AFTOperation, out Outcome, trusted bool
 		}
 	}
 	resolvable := m.Resolvable(ni, Payload(op))
+	if out.Unordered && resolvable && !replaceMissing && len(out.OKs) > 1 {
+		out.OKs = m.orderOKs(ni, op, out.OKs)
+	}
 
 	switch {
 	case replaceMissing:
